@@ -254,6 +254,9 @@ class Interp:
                     out.append(val(TOP if v is None else v, r.state))
             return out
         if isinstance(e, ast.Call):
+            first = self._first_of_comprehension(e, st, fr)
+            if first is not None:
+                return dedupe(first)
             res = d.call(self, e, st, fr)
             if res is not None:
                 return dedupe(res)
@@ -359,6 +362,61 @@ class Interp:
                         out.append(val(TOP if v is None else v, r.state))
             return out
         return [val(TOP, st)]
+
+    def _first_of_comprehension(self, call, st, fr):
+        """next(<genexp>[, default]) / any(<genexp>) / all(<genexp>) over a single-generator
+        comprehension, interpreted as the loop it abbreviates (so the domain's loop hooks apply):
+            for target in iter:
+                if conds: found = elt; break
+        """
+        if not (isinstance(call.func, ast.Name) and call.func.id in ("next", "any", "all") and call.args and not call.keywords):
+            return None
+        comp = call.args[0]
+        if not isinstance(comp, (ast.GeneratorExp, ast.ListComp)) or len(comp.generators) != 1 or comp.generators[0].is_async:
+            return None
+        if call.func.id != "next" and len(call.args) != 1:
+            return None
+        gen = comp.generators[0]
+        found = f"<first@{comp.lineno}:{comp.col_offset}>"
+        elt = comp.elt
+        if call.func.id == "all":
+            elt = ast.UnaryOp(op=ast.Not(), operand=comp.elt)
+        body = [ast.Assign(targets=[ast.Name(id=found, ctx=ast.Store())], value=(comp.elt if call.func.id == "next" else ast.Constant(value=True))), ast.Break()]
+        conds = list(gen.ifs) + ([elt] if call.func.id != "next" else [])
+        if conds:
+            test = conds[0] if len(conds) == 1 else ast.BoolOp(op=ast.And(), values=conds)
+            body = [ast.If(test=test, body=body, orelse=[])]
+        loop = ast.For(target=gen.target, iter=gen.iter, body=body, orelse=[], type_comment=None)
+        for n in ast.walk(loop):
+            if not hasattr(n, "lineno"):
+                n.lineno = comp.lineno
+                n.col_offset = comp.col_offset
+                n.end_lineno = getattr(comp, "end_lineno", comp.lineno)
+                n.end_col_offset = getattr(comp, "end_col_offset", comp.col_offset)
+        out = []
+        key = fr.local(found)
+        st0 = State(frozenset((k, v) for k, v in st.items if k != key), st.log)
+        for kind, payload, s2 in self._for(loop, st0, fr):
+            if kind == "raise":
+                out.append(exc(payload, s2))
+                continue
+            if kind != "next":
+                continue
+            hit = s2.has(key)
+            v = s2.get(key) if hit else None
+            s3 = State(frozenset((k, vv) for k, vv in s2.items if k != key), s2.log)
+            if call.func.id == "next":
+                if hit:
+                    out.append(val(v, s3))
+                elif len(call.args) > 1:
+                    out.extend(self.eval(call.args[1], s3, fr))
+                else:
+                    out.append(exc(("framework", "StopIteration"), s3))
+            elif call.func.id == "any":
+                out.append(val(TRUE if hit else FALSE, s3))
+            else:
+                out.append(val(FALSE if hit else TRUE, s3))
+        return out
 
     def eval_list(self, exprs, st, fr):
         """Evaluate left to right; Result.value is the list of values."""
@@ -502,12 +560,14 @@ class Interp:
             t = d.truth(v)
             if t == "T" and not truth or t == "F" and truth:
                 return None
+            rs = st
             if t == "TF":
                 nv = getattr(d, "refine_truth", lambda v, tr: v)(v, truth)
                 if nv is None:
                     return None
-                return st.set(key, nv)
-            return st
+                rs = st.set(key, nv)
+            hook = getattr(d, "refine", None)
+            return hook(self, test, rs, fr, truth) if hook is not None else rs
         if isinstance(test, ast.Compare) and len(test.ops) == 1:
             op = test.ops[0]
             l, r = test.left, test.comparators[0]
